@@ -1456,6 +1456,19 @@ func (m *Model) ruleCLOSED(r *Results) {
 				why, ok := allowed[root]
 				key := m.declName(fn) + " / DB handle"
 				if !ok {
+					// a constructor helper: the field of a freshly allocated bucket object is only assigned
+					if _, fresh := fa.X.(*ssa.Alloc); fresh && fa.Referrers() != nil {
+						storeOnly := len(*fa.Referrers()) > 0
+						for _, ref := range *fa.Referrers() {
+							if st, isSt := ref.(*ssa.Store); !isSt || st.Addr != ssa.Value(fa) {
+								storeOnly = false
+							}
+						}
+						if storeOnly {
+							r.ok(rule, key, m.instrPos(fa), "constructor helper: assigns the handle of a bucket object it has just allocated")
+							continue
+						}
+					}
 					r.bad(rule, key, m.instrPos(fa), "the raw database handle is used outside the pool accessors / transaction runner / shutdown routine: a closed handle's calls would reach the database instead of failing with the bucket-closed error")
 					continue
 				}
